@@ -11,6 +11,7 @@ import (
 	"net/url"
 	"reflect"
 	"strings"
+	"sync"
 	"testing"
 	"time"
 
@@ -188,7 +189,11 @@ func TestC18CloudEvents(t *testing.T) {
 				return "", signErr
 			}
 		}
-		f.SignEventTypes = []string{"some-other-type", et + "x", "X" + et}
+		// the list is a list of event types, not of patterns
+		f.SignEventTypes = []string{"some-other-type", et + "x", "X" + et, "*", "?", "[a-z]*", et + "*"}
+		if len(et) > 1 {
+			f.SignEventTypes = append(f.SignEventTypes, et[:1]+"*", "*"+et[len(et)-1:])
+		}
 		if listed {
 			f.SignEventTypes = append(f.SignEventTypes, et)
 		}
@@ -205,6 +210,18 @@ func TestC18CloudEvents(t *testing.T) {
 			f.Predicate = func(context.Context, interface{}) (bool, error) { predCalled = true; return true, predErr }
 		}
 		ev := &eventlogger.Event{Type: eventlogger.EventType(et), CreatedAt: created, Formatted: map[string][]byte{}, Payload: payload}
+		wantKey := string(cloudevents.FormatJSON)
+		if format == cloudevents.FormatText {
+			wantKey = string(cloudevents.FormatText)
+		}
+		if len(earlier) > 0 && earlier[len(earlier)-1].key == wantKey && (signer == "nil" || signer == "ok") && rapid.IntRange(0, 2).Draw(t, "fanOutCopy") == 0 {
+			// a caller fanned an earlier event out by copying its table entry by entry: this event's table starts with
+			// the earlier event's document (same storage)
+			prev := earlier[len(earlier)-1]
+			if doc, ok := prev.ev.Format(prev.key); ok {
+				ev.Formatted[prev.key] = doc
+			}
+		}
 		var out *eventlogger.Event
 		var err error
 		panicked := false
@@ -501,4 +518,54 @@ func TestC18Reuse(t *testing.T) {
 		}
 		sec.Case(changes > 0, strings.Join(hist, " "), fmt.Sprintf("changes>0=%v", changes > 0))
 	})
+}
+
+// TestC18IDVolume: generated ids stay unique over a large number of events (a generator with too little
+// entropy only shows at volume).
+func TestC18IDVolume(t *testing.T) {
+	n := stats.EnvInt("C18_IDS", 100000)
+	sec := stats.Sec("id_volume", fmt.Sprintf("%d events without an ID() of their own formatted by one FormatterFilter on 8 goroutines; oracle = every generated id is non-empty and no id occurs twice; non-trivial = every event; distinct = id", n))
+	src, _ := url.Parse("https://example.test/src")
+	f := &cloudevents.FormatterFilter{Source: src, Format: cloudevents.FormatJSON}
+	const workers = 8
+	ids := make([][]string, workers)
+	var wg sync.WaitGroup
+	for w := 0; w < workers; w++ {
+		wg.Add(1)
+		go func(w int) {
+			defer wg.Done()
+			for i := 0; i < n/workers; i++ {
+				ev := &eventlogger.Event{Type: "t", CreatedAt: time.Unix(1, 0), Formatted: map[string][]byte{}, Payload: i}
+				out, err := f.Process(context.Background(), ev)
+				if err != nil || out == nil {
+					continue
+				}
+				doc, _ := out.Format(string(cloudevents.FormatJSON))
+				var m struct {
+					ID string `json:"id"`
+				}
+				_ = json.Unmarshal(doc, &m)
+				ids[w] = append(ids[w], m.ID)
+			}
+		}(w)
+	}
+	wg.Wait()
+	seen := make(map[string]struct{}, n)
+	total := 0
+	for _, l := range ids {
+		for _, id := range l {
+			total++
+			if id == "" {
+				t.Fatalf("VIOLATION C18: empty generated id")
+			}
+			if _, dup := seen[id]; dup {
+				t.Fatalf("VIOLATION C18: generated id %q occurs twice among %d events", id, total)
+			}
+			seen[id] = struct{}{}
+		}
+	}
+	for i := 0; i < 3; i++ {
+		sec.Case(true, fmt.Sprintf("%d ids, all distinct (sample %d)", total, i), "volume")
+	}
+	sec.Set("ids_checked", total)
 }
